@@ -832,13 +832,35 @@ func (r *tunnelRun) runUser(cfgNo int, cfg tnCfg, addr string, p *userPlan, b *t
 		wwg.Wait()
 		c.Close()
 	}
+	// the backend side of this connection: identified by the stream it received (our id) or sent (its nonce), not by
+	// position, because a stale connection of an earlier probe may show up late
 	var bc *backendConn
-	finished := waitFor(8*time.Second, func() bool {
+	pick := func() *backendConn {
 		b.mu.Lock()
-		if len(b.conns) > nBefore {
-			bc = b.conns[nBefore]
-		}
+		cands := append([]*backendConn{}, b.conns[min(nBefore, len(b.conns)):]...)
 		b.mu.Unlock()
+		var fallback *backendConn
+		for _, x := range cands {
+			x.mu.Lock()
+			id, got, seq := x.up.id, x.up.got, x.seq
+			x.mu.Unlock()
+			if got >= hdrLen && id == u {
+				return x
+			}
+			if down.got >= hdrLen && down.kind == 'B' && seq == down.nonce {
+				return x
+			}
+			if got < hdrLen || id == u {
+				fallback = x
+			}
+		}
+		if upBytes > 0 && p.mode != "C" && !(cfg.Transport == "kcp") {
+			return nil // our stream has to arrive before the connection counts as ours
+		}
+		return fallback
+	}
+	finished := waitFor(8*time.Second, func() bool {
+		bc = pick()
 		if bc == nil {
 			return false
 		}
@@ -849,6 +871,13 @@ func (r *tunnelRun) runUser(cfgNo int, cfg tnCfg, addr string, p *userPlan, b *t
 			return false
 		}
 	})
+	if bc == nil { // nothing identified: report the newest unidentified connection, if any, so that its fate is judged
+		b.mu.Lock()
+		if len(b.conns) > nBefore {
+			bc = b.conns[len(b.conns)-1]
+		}
+		b.mu.Unlock()
+	}
 	ev := []any{"n", cfgNo, "cfg", cfg, "u", u, "proxy", proxy, "mode", p.mode, "dial_ok", true, "what", "",
 		"up_written", wrote, "up_planned", upBytes, "down_planned", back.downBytes,
 		"down_got", down.got, "down_ok", down.ok, "down_kind", string(rune(down.kind)), "down_backend", down.id,
